@@ -258,6 +258,7 @@ def gen_scalar(rng, ctx=None, kinds=None, whole=False):
             tags.append("isoformat")
             return {"k": "str", "s": s, "np": False}, ("inst", I), tags
         fr = rng.random()
+        lenient = 0
         if us == 0 and fr < 0.5:
             tags.append("frac:none")
         elif us % 1000 == 0 and fr < 0.3:
@@ -267,7 +268,7 @@ def gen_scalar(rng, ctx=None, kinds=None, whole=False):
         elif fr < 0.12:
             s += (",%06d" % us); tags.append("frac:comma")
         elif fr < 0.22:
-            s += (".%06d%s" % (us, rng.choice(["000", "999", "5", "4999999"]))); tags.append("frac:>6")
+            s += (".%06d%s" % (us, rng.choice(["000", "999", "5", "4999999"]))); tags.append("frac:>6"); lenient = 1
         else:
             s += (".%06d" % us); tags.append("frac:6")
         if kind == "isoZ":
@@ -275,7 +276,7 @@ def gen_scalar(rng, ctx=None, kinds=None, whole=False):
         elif kind == "isoOff":
             s += fmt_zone(off) if off or rng.random() < 0.7 else "-00:00"
             tags.append("off!=0" if off else "off=0")
-        return {"k": "str", "s": s, "np": rng.random() < 0.05}, ("inst", I), tags
+        return {"k": "str", "s": s, "np": rng.random() < 0.05}, (("inst", I, lenient) if lenient else ("inst", I)), tags
     if kind == "int":
         I -= I % 10 ** 6
         return {"k": "int", "v": I // 10 ** 6, "np": rng.random() < 0.2}, ("inst", I), tags
@@ -403,10 +404,19 @@ def cmp_utc(ctx, desc_in, imp, mod, exp, path="", modelled=True):
             bad += 1
         return bad
     E = exp[1]
+    tol = exp[2] if len(exp) > 2 else 0          # lenient categories: |got - E| <= tol, model difference tallied
     got, prob = impl_instant(imp)
     if prob:
         ctx.oracle_fail("to_datetime_utc%s: %s; expected the UTC instant %s" % (path, prob, fields_of(E)), desc_in)
         return 1
+    if tol:
+        if abs(got - E) > tol:
+            ctx.oracle_fail("to_datetime_utc%s returned %s, more than %d us away from the instant %s the input denotes"
+                            % (path, imp["f"], tol, fields_of(E)), desc_in)
+            return 1
+        if modelled and isinstance(mod, dict) and mod["inst"] != got:
+            ctx.tally("lenient: implementation differs from the model inside the tolerance")
+        return 0
     if got != E:
         ctx.oracle_fail("to_datetime_utc%s returned %s (instant %d us) but the input denotes %s (instant %d us): off by %d us"
                         % (path, imp["f"], got, fields_of(E), E, got - E), desc_in)
@@ -618,10 +628,14 @@ def run_packed(ctx):
                 ctx.oracle_fail("time_from_timeint(%d) = %r us, but %d denotes %02d:%02d:%02d = %d us" % (t, im, t, mean[0], mean[1], mean[2], want), rep)
         else:
             ctx.tally("timeint-invalid-fields")
-        if im != mo and nbad < 20:
-            nbad += 1
-            ctx.disagree("time_from_timeint(%d): implementation %r us, model %r us" % (t, im, mo), rep,
-                         is_property_failure=False)
+        if im != mo:
+            if mean is None:
+                # not a valid packed time: the property is silent, recorded only
+                ctx.tally("timeint-invalid-fields: implementation differs from the model's decoder")
+            elif nbad < 20:
+                nbad += 1
+                ctx.disagree("time_from_timeint(%d): implementation %r us, model %r us" % (t, im, mo), rep,
+                             is_property_failure=False)
     # dates
     k0 = N
     nbad = 0
@@ -650,11 +664,7 @@ def run_packed(ctx):
                 ctx.disagree("date_from_dateint(%d): implementation %r, model %r" % (v, im["f"][:3], mo), rep)
         else:
             # invalid calendar date: datetime() must raise (model: fields out of range)
-            if not isinstance(im, str):
-                # the implementation accepted: it must at least agree with the model's fields
-                if im["f"][:3] != mo and nbad < 20:
-                    nbad += 1
-                    ctx.disagree("date_from_dateint(%d) (invalid date): implementation %r, model fields %r" % (v, im["f"][:3], mo), rep)
+            ctx.tally("dateint-invalid: implementation %s" % ("raises" if isinstance(im, str) else "accepts"))
     # date + time
     k1 = k0 + len(dates)
     nbad = 0
@@ -667,7 +677,7 @@ def run_packed(ctx):
         rep = {"op": "datetime_from_time_and_date_integers", "date_int": dv, "time_int": t, "impl": im,
                "model": " ".join(mo), "denotes": [ymd, mean]}
         if isinstance(im, str):
-            if nbad < 20:
+            if mean is not None and nbad < 20:
                 nbad += 1
                 ctx.oracle_fail("datetime_from_time_and_date_integers(%d, %d) raised %s" % (dv, t, im), rep)
             continue
@@ -678,13 +688,13 @@ def run_packed(ctx):
                 nbad += 1
                 ctx.oracle_fail("datetime_from_time_and_date_integers(%d, %d) = %s; expected %s UTC" % (dv, t, prob or im["f"], fields_of(want)), rep)
         mg = int(mo[1]) if mo[0] == "S" else None
-        if not prob and mg != g and nbad < 20:
+        if not prob and mg != g and mean is not None and nbad < 20:
             nbad += 1
             ctx.disagree("datetime_from_time_and_date_integers(%d, %d): implementation instant %r, model %r" % (dv, t, g, mg), rep)
         if j < len(res[3]):
             v64 = res[3][j]
             ok = isinstance(v64, dict) and v64.get("dtype") == "datetime64[ns]" and not prob and v64.get("ns") == g * 1000
-            if not ok and nbad < 20:
+            if not ok and mean is not None and nbad < 20:
                 nbad += 1
                 ctx.oracle_fail("datetime_from_time_and_date_integers(%d, %d, as_datetime64=True) = %r; expected %d ns" % (dv, t, v64, (g or 0) * 1000), rep)
     ctx.sample({"packed": {"time_from_timeint(201813) us": res[0][201813], "model s": mods[201813][0],
@@ -760,7 +770,7 @@ def run(ctx):
         cnt = I * 1000 // UNIT_NS[unit]
         if unit == "ns":
             cnt += rng.randint(0, 999)
-        cases.append({"op": "utc", "r": {"k": "dt64", "count": cnt, "unit": unit}, "exp": ("inst", floor_s(I)),
+        cases.append({"op": "utc", "r": {"k": "dt64", "count": cnt, "unit": unit}, "exp": ("inst", floor_s(I), 999999),
                       "tags": ["dt64-subsecond(floored by the code, DESIGN 7)"]})
     # spellings outside the model's grammar: implementation-only
     for i in range(ctx.n(80, 2000)):
